@@ -108,4 +108,30 @@ CHECKS = {
         technique='static type-shape check, who-may-access/write rules, upper-bound (clamp) dataflow and must-pass-through CFG rule over clang JSON AST',
         design_ref='3-D I4, 3-G, 4-C07',
     ),
+    'C01': dict(
+        category='other',
+        text='Decides the code-shape clauses of the sorted-map property, not equality with an ideal map over histories: T1 node keys '
+             'are touched only through tbl->compare (one orientation), qmemdup/free and moves - so string/binary keys and user '
+             'orderings behave alike; T2 sign-domain dataflow: each of the 8 descent steps of put/remove/find/find_nearest takes '
+             'left only where the comparator result can be negative, right only where positive, never for an equal key; T3 every '
+             'rotation/fix-up/recursive result is written back to the link that supplied it and the public mutators store and '
+             'blacken the root on every path; T4 the key count changes exactly with node creation/destruction on every path '
+             '(replace branch writes no counter). Each is necessary: breaking it loses or misplaces keys for some history.',
+        note='The user comparator is assumed to be a strict weak ordering; LLRB balance/colour invariants are C02 (n/a); the sign '
+             'analysis cannot judge a descent after the comparator result was recomputed against a rotated node (remove_obj right part).',
+        technique='static sign-domain dataflow over the comparator result, who-may-touch rule on key fields, link write-back and count-pairing typestate (clang JSON AST/CFG)',
+        design_ref='3-T, 4-C01',
+    ),
+    'C04': dict(
+        category='other',
+        text='Decides the precondition of termination and history-independence named in the anchors, not floor semantics: T5 every '
+             'loop climbing through the per-node parent link is preceded on all paths by a same-call reset of the root\'s parent '
+             'link, and every descent step rewrites the child\'s parent link first - so the climb only follows links written by the '
+             'current call; T2 the search descends left exactly for negative and right for positive comparator results. The '
+             'sibling oracle is qtreetbl_getnext, whose first-call path resets through reset_iterator.',
+        note='getnext\'s continuation branch (cursor already carries a parent link) is exempt by contract; the returned key\'s floor '
+             'semantics and the continuation walk are runtime behaviour.',
+        technique='static must-pass-through (dominance) rule on the CFG for parent-link climbs plus sign-domain descent check',
+        design_ref='3-T, 4-C04',
+    ),
 }
